@@ -47,13 +47,46 @@ CONTEXTS = {
     "global-variable-as-default-of-nested-function": "    def inner(a=VARV):\n        return a\n    return inner()",
     "global-declared": "    global VARV\n    return VARV",
     "helper-in-default-value-of-nested-function": "    def inner(a=helper()):\n        return a\n    return inner()",
+    "class-instantiation": "    return Klass().v",
+    "method-call-on-new-instance": "    return Klass().meth()",
+    "decorated-helper": "    return cached_helper()",
+    "generator-function": "    def gen():\n        yield helper()\n    return list(gen())",
+    "two-levels": "    return via()",
+    "augmented-assignment": "    r = 0\n    r += helper()\n    return r",
+    "import-inside-function": "    from . import other\n    return other.helper3()",
+    "try-finally": "    try:\n        return helper()\n    finally:\n        pass",
+    "loop-else": "    for _ in range(1):\n        pass\n    else:\n        return helper()",
+    "str-format": "    return '{}'.format(helper())",
+    "slice-bound": "    return list(range(100))[:helper()]",
+    "unary-minus": "    return -helper()",
+    "comparison-chain": "    return 0 < helper() < 100000",
+    "starred-in-list": "    return [*[helper()]]",
+    "dict-value": "    return {'k': helper()}['k']",
+    "set-literal": "    return sorted({helper()})",
+    "nested-lambda-argument": "    return list(map(lambda z: z + helper(), [0]))",
+    "sorted-key": "    return sorted([3, 1], key=lambda z: z * helper())",
+    "global-list-variable": "    return LISTV",
+    "global-dict-variable": "    return DICTV",
+    "global-path-variable": "    return PATHV",
+    "global-variable-in-default-of-lambda": "    return (lambda a=VARV: a)()",
+    "global-variable-in-decorated-helper": "    return reads_var()",
+    "global-variable-via-other-module": "    from . import other\n    return other.OTHERV",
+    "helper-through-imported-module-attribute": "    return othermod.helper3()",
+    "global-variable-through-imported-module-attribute": "    return othermod.OTHERV",
+    "global-variable-imported-by-name": "    return OTHERV2",
 }
 
 MODULE = '''import dds
 import functools
 import contextlib
 import sys
+from . import other as othermod
+from .other import OTHERV as OTHERV2
+from pathlib import PurePosixPath
 VARV = {var}
+LISTV = [1, {var}]
+DICTV = {{"k": {var}}}
+PATHV = PurePosixPath("/a/{var}")
 selfmod = sys.modules[__name__]
 
 @contextlib.contextmanager
@@ -68,6 +101,27 @@ def helper():
 
 def helper1(_):
     return {hv}
+
+
+class Klass:
+    def __init__(self):
+        self.v = helper()
+
+    def meth(self):
+        return helper()
+
+
+@functools.lru_cache(maxsize=None)
+def cached_helper():
+    return helper()
+
+
+def via():
+    return helper()
+
+
+def reads_var():
+    return VARV
 
 def target():
 {body}
@@ -94,12 +148,14 @@ def run_case(args):
     try:
         os.makedirs(os.path.join(base, "synpk"))
         open(os.path.join(base, "synpk", "__init__.py"), "w").write("")
+        other_tpl = "OTHERV = {var}\n\n\ndef helper3():\n    return {hv}\n"
         open(os.path.join(base, "run.py"), "w").write(RUN)
         outs = []
         for version in (0, 1):
             hv = 11 + (version if edit == "helper" else 0)
             var = 5 + (version if edit == "variable" else 0)
             open(os.path.join(base, "synpk", "m.py"), "w").write(MODULE.format(var=var, hv=hv, body=CONTEXTS[name]))
+            open(os.path.join(base, "synpk", "other.py"), "w").write(other_tpl.format(var=var, hv=hv))
             env = C.impl_env()
             rc, out = C.sh([C.PY, os.path.join(base, "run.py"), base], env=env, cwd=base, timeout=120)
             line = [l for l in out.splitlines() if l.startswith("@@")]
